@@ -129,7 +129,8 @@ def main(tier, seed):
         "blocks; clustering sca/edit-dist/turchin) / Alignments (align(); msa blocks when ignore=[]) objects, 80% inside "
         "the property's quantifier, 20% with None/float cells, blanks at the ends, TAB/LF inside, plus corpus/serialize; "
         "reader cases = hand-assembled TSV text (padding, comments, @-lines, blocks, header case, id column variants, "
-        "broken rows); block cases = <dst>/<scorer> blocks with k/32 ties, short decimals and arbitrary doubles. "
+        "broken rows); msa cases = the <msa> section of every Alignments step written with ignore=[] (swap-checked "
+        "alignments with a planted metathesis, planted LOCAL marks); block cases = <dst>/<scorer> blocks with k/32 ties, short decimals and arbitrary doubles. "
         "Non-trivial = object inside the quantifier with >= 2 rows and at least one int/list cell; reader: file loads "
         "with >= 2 rows; blocks: >= 2 taxa and the file loads. Distinct by full input.")
     c["exhaustive"] = False
@@ -146,8 +147,10 @@ def main(tier, seed):
         "exact value; a double read back is identified by its repr() (<= 15 significant digits)",
         "value types: basictypes.lists/ints count as lists of their item type; an empty list has no item type",
         "modelled, not verified: wl2qlc, read_qlc, QLCParser.__init__ conversion loop, LexStat derived columns and pairs, "
-        "matrix2dst, read_dst, scorer2str, read_scorer; not modelled: @json/@tree lines, <msa>/<json>/<csv>/<tre> blocks "
-        "and Alignments.add_alignments (msa state and re-analysis compared between the saved and the loaded object only)"]
+        "matrix2dst, read_dst, scorer2str, read_scorer, msa2str(wordlist=True), the <msa> tag parsing, _list2msa, "
+        "Alignments.add_alignments (get_etymdict order, normalize_alignment); not modelled: @json/@tree lines, "
+        "<json>/<csv>/<tre> blocks, MERGE/COMPLEX lines, string ids of msa rows; align()/cluster() results are compared "
+        "between the saved and the loaded object only"]
     run.assumptions += ["strings are NFC, CR-free; column names ASCII",
                         "float list items print as plain decimals (no exponent notation)"]
     return run.finish()
